@@ -610,6 +610,12 @@ func (c *Cluster) Shutdown() {
 	for {
 		select {
 		case <-done:
+			// RPC goroutines of the library are not awaited by Stop: let the ones still
+			// travelling finish (time stops when the bubble's root goroutine exits)
+			for c.net.inflight.Load() > 0 {
+				c.net.ReleaseAll(false, nil)
+				time.Sleep(time.Millisecond)
+			}
 			return
 		case <-time.After(50 * time.Millisecond):
 			c.net.ReleaseAll(false, nil)
